@@ -21,6 +21,7 @@
  * limitations under the License.
  */
 
+#include <limits.h>
 #include <math.h>
 #include <stdbool.h>
 #include <stdio.h>
@@ -549,13 +550,27 @@ unsigned cmb_random_geometric(const double p)
 {
     cmb_assert((p > 0.0) && (p <= 1.0));
 
+    if (p == 1.0) {
+        /* Success in the first trial, and log(0) below would be a pole */
+        return 1u;
+    }
+
     static CMB_THREAD_LOCAL double prev = 0.0;
     static CMB_THREAD_LOCAL double denom = 0.0;
     if (p != prev) {
-        denom = -log(1.0 - p);
+        /* log1p keeps the denominator positive also for p below 2^-53 */
+        denom = -log1p(-p);
     }
 
-    unsigned x = (unsigned)ceil(cmb_random_std_exponential() / denom);
+    /* At least one trial, and saturate instead of overflowing the result */
+    const double q = ceil(cmb_random_std_exponential() / denom);
+    unsigned x = 1u;
+    if (q >= (double)UINT_MAX) {
+        x = UINT_MAX;
+    }
+    else if (q > 1.0) {
+        x = (unsigned)q;
+    }
 
     cmb_assert_debug(x >= 1u);
     return x;
